@@ -148,3 +148,17 @@ def rules(t):
     return out
 
 def VARINT_LEN(v): return 1 if v < 64 else 2 if v < 16384 else 4 if v < (1 << 30) else 8
+
+_rules_c13_w5 = rules
+def rules(t):
+    import rules.wave5 as W5
+    out = _rules_c13_w5(t)
+    out.append(W5.writer_total(t, "C13.e"))
+    return out
+
+_rules_C13_w6 = rules
+def rules(t, *a, **kw):
+    import rules.wave6 as W6
+    out = _rules_C13_w6(t, *a, **kw)
+    out.append(W6.reset_means_flushed(t, "C13.f"))
+    return out
